@@ -15,9 +15,13 @@ Theorem c12_table_ok :
   C12_Table.kv_table = kv_spec /\
   forallb (plain_ok C12_Table.redis_table) C12_Table.plain_table = true /\
   forallb (has_plain C12_Table.plain_table) C12_Table.redis_table = true /\
-  forallb (kv_plain_ok C12_Table.kv_table) C12_Table.kv_plain_table = true.
+  forallb (kv_plain_ok C12_Table.kv_table) C12_Table.kv_plain_table = true /\
+  forallb (kv_ctx_ok C12_Table.redis_table) C12_Table.kv_table = true /\
+  C12_Table.client_table = client_spec /\
+  C12_Table.scriptcache_table = scriptcache_spec.
 Proof.
-  exact (conj link_redis_table (conj link_kv_table (conj link_plain_rule (conj link_plain_complete link_kv_plain_rule)))).
+  exact (conj link_redis_table (conj link_kv_table (conj link_plain_rule (conj link_plain_complete
+        (conj link_kv_plain_rule (conj link_kv_ctx (conj link_client_table link_scriptcache_table))))))).
 Qed.
 Print Assumptions c12_table_ok.
 
@@ -173,6 +177,63 @@ Proof.
 Qed.
 Print Assumptions c12_breaker_acceptance.
 
+(* Every kv.Store context-form method hands its own ctx to a context-form method (of the wrapper: a row of the
+   generated redis table; or of the store itself): a dead context reaches go-redis. *)
+Theorem c12_kv_ctx_passed :
+  forall r, In r C12_Table.kv_table -> kv_ctx_ok C12_Table.redis_table r = true.
+Proof. apply forallb_forall. exact link_kv_ctx. Qed.
+Print Assumptions c12_kv_ctx_passed.
+
+(* Client isolation.  The go-redis client of an address is created from a fresh options literal keyed and
+   addressed by r.Addr (generated client_table); with options captured by value at creation, for ANY history of
+   wrapper calls over any number of addresses: a call of wrapper(addr) has exactly the reply and the effect of
+   its command on server(addr), touches no other server, and servers of addresses not called are unchanged. *)
+Theorem c12_client_isolated :
+  forallb client_fresh C12_Table.client_table = true /\
+  forall (S Cmd R : Type) (exec1 : S -> Cmd -> S * R),
+    (forall m (n : net S) r cmd, cm_inv m ->
+       let res := wcall exec1 (m, n) r cmd in
+       snd res = snd (exec1 (n (i_addr r)) cmd) /\
+       snd (fst res) (i_addr r) = fst (exec1 (n (i_addr r)) cmd) /\
+       (forall a, a <> i_addr r -> snd (fst res) a = n a) /\
+       cm_inv (fst (fst res)) /\
+       (forall a c, alookup String.eqb a m = Some c -> alookup String.eqb a (fst (fst res)) = Some c)) /\
+    (forall h (n : net S) a, (forall r cmd, In (r, cmd) h -> i_addr r <> a) ->
+       snd (fst (wcalls exec1 ([], n) h)) a = n a).
+Proof.
+  split; [exact link_client_fresh|]. intros S Cmd R exec1. split.
+  - intros. apply wcall_spec. assumption.
+  - intros h n a H. apply wcalls_isolated; [|assumption]. intros x c Hx. discriminate.
+Qed.
+Print Assumptions c12_client_isolated.
+
+(* Script cache: after ANY history of SetSha calls, GetSha(script) is the most recent sha registered for exactly
+   that text, and absent if the text was never registered. *)
+Theorem c12_scriptcache_last_write :
+  forall (h : list (string * string)) (script : string),
+    sc_get (sc_run [] h) script = last_set script h.
+Proof. intros h s. apply sc_last_write. reflexivity. Qed.
+Print Assumptions c12_scriptcache_last_write.
+
+(* ... so evaluating by the cached sha is evaluating the script: if the server resolves `sha` to `script`
+   (it does once the script was loaded), EvalShaCtx(GetSha(script)) and EvalCtx(script) are the same call. *)
+Theorem c12_evalsha_cached :
+  forall (S C B : Type) (bg : C) (exec : S -> C -> string -> list val -> S * (val * err)) repr
+         (accept : B -> bool * B) (mark : B -> bool -> B) gerr (cache : scache) script sha,
+    sc_get cache script = Some sha ->
+    (forall st ctx rest, exec st ctx "EvalSha" (VS sha :: rest) = exec st ctx "Eval" (VS script :: rest)) ->
+    forall fuel b st ctx keys argv,
+      run bg exec repr accept mark gerr (Datatypes.S fuel) C12_Table.redis_table "EvalShaCtx" b st ctx
+          [match sc_get cache script with Some x => VS x | None => VZero end; keys; argv] =
+      run bg exec repr accept mark gerr (Datatypes.S fuel) C12_Table.redis_table "EvalCtx" b st ctx [VS script; keys; argv].
+Proof.
+  intros S C B bg exec repr accept mark gerr cache script sha Hc Hs fuel b st ctx keys argv.
+  rewrite Hc. cbn [run]. destruct link_eval_rows as [E1 E2]. rewrite E1, E2.
+  unfold run_cmd, body. cbn -[place tail acceptable]. destruct (accept b) as [ok b1]. destruct ok; [|reflexivity].
+  destruct gerr; try reflexivity. unfold place. cbn [flat_map place1 eval1 nth app]. rewrite Hs. reflexivity.
+Qed.
+Print Assumptions c12_evalsha_cached.
+
 (* ---- non-vacuity ---- *)
 Example c12_rows_exist :
   find_row C12_Table.redis_table "ZScoreCtx" =
@@ -195,6 +256,11 @@ Example c12_run_nonvacuous :
   run tt toy_exec (fun _ => "?") (fun b : nat => (true, b)) (fun b ok => if ok then b else Datatypes.S b) ENone 3 tbl
       "HGet" 0%nat "init" tt [VS "k"; VS "f"] = Some ((0%nat, "HGet"), (VZero, ENil), Some true).
 Proof. vm_compute. repeat split; reflexivity. Qed.
+
+Example c12_scriptcache_nonvacuous :
+  sc_get (sc_run [] [("s1", "a"); ("s2", "b"); ("s1", "c")]) "s1" = Some "c" /\
+  sc_get (sc_run [] [("s1", "a"); ("s2", "b"); ("s1", "c")]) "s3" = None.
+Proof. split; reflexivity. Qed.
 
 (* key-locality is satisfiable: one slot per key, commands replace the slot and answer the old one *)
 Example c12_key_local_satisfiable :
